@@ -414,7 +414,9 @@ func c18RunC(tb vt.TB, cs *c18Case) *c18QStat {
 	var got string
 	var err error
 	ctx := fmt.Sprintf("tags (newest first) %q", cs.Tags)
-	if p := c18Safely(func() { got, err = registry.GetTagMatchingVersionOrConstraint(append([]string(nil), cs.Tags...), cs.Query) }); p != nil {
+	if p := c18Safely(func() {
+		got, err = registry.GetTagMatchingVersionOrConstraint(append([]string(nil), cs.Tags...), cs.Query)
+	}); p != nil {
 		vt.Violation(tb, "C18:tags/panic", fmt.Sprintf("query %q panicked: %v; %s", cs.Query, p, ctx), cs)
 		return nil
 	}
